@@ -147,6 +147,38 @@ def r1_tables(ctx, res):
             res.find(key, lmf.relpath, f'_NS_ATTRS[{v!r}] does not map exactly the dc: attributes of {uri} plus status/note/confidenceScore')
 
 
+def reader_text_checks(ctx, res):
+    """the reader hands element text over complete and unaltered (shared by C01: add() stores what load() returns)"""
+    import re as _re
+    from ..speccheck import view
+    # character data may arrive in several callbacks (expat buffer boundaries, entity references): the handler must append
+    cd = view(ctx, 'lmf', '_make_parser.<locals>.char_data')
+    key = 'reader:text-accumulates'
+    augs = [r for r in cd.rows if r[0] == 'aug' and _re.match(r"^(.+)\['text'\] \+= data$", r[1])]
+    plain = [r for r in cd.rows if r[0] == 'store' and "['text'] = " in r[1]]
+    res.inst(key, cd.loc(), "<open element>['text'] += data")
+    if len(augs) != 1 or plain:
+        res.find(key, cd.loc(), "the character-data handler no longer appends to the text of the open element (expat delivers long or "
+                                'entity-bearing text in several pieces; assigning keeps only the last piece, so text longer than the parser '
+                                'buffer is truncated on load)')
+    mp = view(ctx, 'lmf', '_make_parser')
+    key = 'reader:handlers-installed'
+    res.inst(key, mp.loc(), 'Start/End/CharacterData handlers')
+    for attr, fn in (('StartElementHandler', 'start'), ('EndElementHandler', 'end'), ('CharacterDataHandler', 'char_data')):
+        if not [r for r in mp.rows if r[0] == 'store' and _re.match(r'^#\d+\.' + attr + ' = ' + fn + '$', r[1]) and not r[2]]:
+            res.find(key, mp.loc(), f'the parser is no longer wired with `{attr} = {fn}`')
+    en = view(ctx, 'lmf', '_make_parser.<locals>.end')
+    key = 'reader:whitespace-normalised'
+    res.inst(key, en.loc(), "' '.join(text.split()) unless xml:space=preserve")
+    okw = False
+    for r in en.rows:
+        m = _re.match(r"^(.+)\['text'\] = ' '\.join\((.+)\['text'\]\.split\(\)\)$", r[1]) if r[0] == 'store' else None
+        if m and m.group(1) == m.group(2) and f"{m.group(1)}.get(_XMLSPACEATTR, '') != 'preserve'" in r[2]:
+            okw = True
+    if not okw:
+        res.find(key, en.loc(), 'text content is no longer whitespace-normalised (unless xml:space="preserve") at the end of an element')
+
+
 def r2_model_reader(ctx, res):
     model = ctx.model
     lmf = ctx.repo.mod('lmf')
@@ -213,32 +245,7 @@ def r2_model_reader(ctx, res):
         if not hits or len(hits) != len(stores):
             res.find(key, v.loc(), f'{fname} no longer converts {k!r} ({what}) whenever it is present: '
                                    f'{sorted({r[1] for r in stores})[:2]}: the loaded value has the wrong type for the model')
-    # character data may arrive in several callbacks (expat buffer boundaries, entity references): the handler must append
-    cd = view(ctx, 'lmf', '_make_parser.<locals>.char_data')
-    key = 'reader:text-accumulates'
-    augs = [r for r in cd.rows if r[0] == 'aug' and _re.match(r"^(.+)\['text'\] \+= data$", r[1])]
-    plain = [r for r in cd.rows if r[0] == 'store' and "['text'] = " in r[1]]
-    res.inst(key, cd.loc(), "<open element>['text'] += data")
-    if len(augs) != 1 or plain:
-        res.find(key, cd.loc(), "the character-data handler no longer appends to the text of the open element (expat delivers long or "
-                                'entity-bearing text in several pieces; assigning keeps only the last piece, so text longer than the parser '
-                                'buffer is truncated on load)')
-    mp = view(ctx, 'lmf', '_make_parser')
-    key = 'reader:handlers-installed'
-    res.inst(key, mp.loc(), 'Start/End/CharacterData handlers')
-    for attr, fn in (('StartElementHandler', 'start'), ('EndElementHandler', 'end'), ('CharacterDataHandler', 'char_data')):
-        if not [r for r in mp.rows if r[0] == 'store' and _re.match(r'^#\d+\.' + attr + ' = ' + fn + '$', r[1]) and not r[2]]:
-            res.find(key, mp.loc(), f'the parser is no longer wired with `{attr} = {fn}`')
-    en = view(ctx, 'lmf', '_make_parser.<locals>.end')
-    key = 'reader:whitespace-normalised'
-    res.inst(key, en.loc(), "' '.join(text.split()) unless xml:space=preserve")
-    okw = False
-    for r in en.rows:
-        m = _re.match(r"^(.+)\['text'\] = ' '\.join\((.+)\['text'\]\.split\(\)\)$", r[1]) if r[0] == 'store' else None
-        if m and m.group(1) == m.group(2) and f"{m.group(1)}.get(_XMLSPACEATTR, '') != 'preserve'" in r[2]:
-            okw = True
-    if not okw:
-        res.find(key, en.loc(), 'text content is no longer whitespace-normalised (unless xml:space="preserve") at the end of an element')
+    reader_text_checks(ctx, res)
     # typed keys of the model that need a conversion are all in the table
     for cls, keys in model.classes.items():
         for k, (ann, req) in keys.items():
